@@ -211,9 +211,19 @@ class MaybeEncodingError(Exception):
     safely sent through the socket."""
 
     def __init__(self, exc, value):
-        self.exc = repr(exc)
-        self.value = repr(value)
+        self.exc = self._safe_repr(exc)
+        self.value = self._safe_repr(value)
         super().__init__(self.exc, self.value)
+
+    @staticmethod
+    def _safe_repr(obj):
+        # this runs in the worker while it reports a result it could not
+        # send: a value whose repr() fails as well (nested too deeply,
+        # broken __repr__) must not take the worker down.
+        try:
+            return repr(obj)
+        except Exception:
+            return '<unrepresentable %s object>' % type(obj).__name__
 
     def __repr__(self):
         return "<%s: %s>" % (self.__class__.__name__, str(self))
